@@ -637,8 +637,14 @@ func c14History(r *Run, idx int) {
 			if from != "" {
 				key += "/answered-from-" + from
 			}
+			var keyLog []secCall[int, int64]
+			for _, c := range seclog {
+				if c.Key == k {
+					keyLog = append(keyLog, c)
+				}
+			}
 			r.Violate(key, fmt.Sprintf("%s: key %d is not linearizable: %s; core: %v", label, k, what, hopStrings(core)),
-				map[string]any{"config": cfg, "key": k, "core": core, "core_text": hopStrings(core)})
+				map[string]any{"config": cfg, "key": k, "core": core, "core_text": hopStrings(core), "secondary_store_calls_for_the_key": tailLog(keyLog, 60), "client_ops_for_the_key": hopStrings(ops)})
 		}
 	}
 	r.Eval(1)
@@ -672,6 +678,12 @@ func runC14(r *Run) {
 		if i%r.NShards == r.Shard {
 			lifeScript(r, i, "C14")
 		}
+	}
+	if only := mustAtoi(r.Args["only"], -1); only >= 0 { // debugging aid: one history, repeated
+		for i := 0; i < mustAtoi(r.Args["reps"], 1); i++ {
+			c14History(r, only)
+		}
+		return
 	}
 	nh := r.Pick(160, 8000)
 	for i := 0; i < nh; i++ {
